@@ -648,8 +648,10 @@ def trace_leg(ctx, jobs, label):
 # ------------------------------------------------------------------ archives written by ar(1)
 
 def ar_binary_archive(ctx, rng, idx):
-    """members written by GNU ar (q = append, so duplicate names are possible); the expected header
-    fields come from os.stat of the input files"""
+    """members written by GNU ar (q = append, so duplicate names are possible; U = real uid/gid/mtime;
+    S = no symbol table: binutils otherwise prepends a special "/" member as soon as a BFD plugin takes
+    some random member data for an object file, and special members are outside "short member names");
+    the expected header fields come from os.stat of the input files"""
     base = os.path.join(ctx.work, "arbin%04d" % idx)
     n = rng.choice([0, 1, 2, 3, 5])
     members, files = [], []
@@ -673,9 +675,9 @@ def ar_binary_archive(ctx, rng, idx):
     os.makedirs(base, exist_ok=True)
     path = os.path.join(base, "t.ar")
     if files:
-        p = subprocess.run([AR_BIN, "qcU", path] + files, capture_output=True, text=True)
+        p = subprocess.run([AR_BIN, "qcUS", path] + files, capture_output=True, text=True)
     else:
-        p = subprocess.run([AR_BIN, "qcU", path], capture_output=True, text=True)
+        p = subprocess.run([AR_BIN, "qcUS", path], capture_output=True, text=True)
     if p.returncode != 0 or not os.path.exists(path):
         raise core.MachineryError("ar failed: %s" % p.stderr)
     with open(path, "rb") as f:
@@ -1073,7 +1075,7 @@ def run_binding(ctx, quick, rng):
                 calls = random_calls(rng, [m["data"] for m in arch.members], 25)
                 jobs.append((arch, modes[i % 2], calls))
             trace_leg(ctx, jobs, "ar_binary")
-            ctx.extra["ar_binary"] = "archives written by %s qcU" % AR_BIN
+            ctx.extra["ar_binary"] = "archives written by %s qcUS" % AR_BIN
         else:
             ctx.extra["ar_binary"] = "skipped: %s not present" % AR_BIN
 
